@@ -261,6 +261,17 @@ Definition conc_model (c : fstate * list (kind * nat) * list nat) : list (option
             dict(init='full', callers=[dict(kind='goc', force=False), dict(kind='goc', force=True)], seed=1, script=window),
             dict(init='full', callers=[dict(kind='get'), dict(kind='goc', force=True)], seed=1, script=window),
             dict(init='absent', callers=[dict(kind='goc', force=False), dict(kind='goc', force=False)], seed=2),
+            # two callers miss, the first stores and returns, a reader passes its check, the second caller - acting on its
+            # stale miss - writes while the reader loads
+            dict(init='absent', callers=[dict(kind='goc', force=False), dict(kind='goc', force=False), dict(kind='get')], seed=6,
+                 script=[0, 0, 0, 1, 1, 1, 0, 0, 0, 0, 0, 0, 2, 2, 2, 1, 1, 1, 2, 1, 1, 1]),
+            dict(init='absent', callers=[dict(kind='goc', force=False), dict(kind='goc', force=False), dict(kind='goc', force=False)],
+                 seed=7, script=[0, 0, 0, 1, 1, 1, 0, 0, 0, 0, 0, 0, 2, 2, 2, 1, 1, 1, 2, 1, 1, 1]),
+            # the same for a writer that needs one step less to store (no separate publication step)
+            dict(init='absent', callers=[dict(kind='goc', force=False), dict(kind='goc', force=False), dict(kind='get')], seed=8,
+                 script=[0, 0, 0, 1, 1, 1, 0, 0, 0, 0, 0, 2, 2, 2, 1, 1, 1, 2, 1, 1, 1]),
+            dict(init='absent', callers=[dict(kind='goc', force=False), dict(kind='goc', force=False), dict(kind='goc', force=False)],
+                 seed=9, script=[0, 0, 0, 1, 1, 1, 0, 0, 0, 0, 0, 2, 2, 2, 1, 1, 1, 2, 1, 1, 1]),
             # two and three callers start at the same moment on a key that was never used (no directory yet)
             dict(init='absent', callers=[dict(kind='goc', force=False), dict(kind='goc', force=False)], seed=4, late_start=True,
                  fresh_dir=True, script=[0, 1, 0, 1]),
